@@ -509,12 +509,20 @@ func runEngine(m map[string]string) string {
 // kept (at most 3), and the first two rounds always.
 var raceMu sync.Mutex // one race case at a time: its goroutines spin for microseconds per round, the other cases measure time
 
+type raceRound struct {
+	rec    *recorder
+	shared *recSched
+	ctx    context.Context
+	lagMul int
+}
+
 func runRace(m map[string]string) string {
 	raceMu.Lock()
 	defer raceMu.Unlock()
 	inst, _ := strconv.Atoi(m["inst"])
 	rounds, _ := strconv.Atoi(m["rounds"])
 	per, _ := strconv.Atoi(m["per"])
+	budget, _ := strconv.Atoi(m["ms"]) // stop after that many ms even if fewer than `rounds` rounds were made (0: no limit)
 	if inst < 2 {
 		inst = 2
 	}
@@ -530,57 +538,76 @@ func runRace(m map[string]string) string {
 			break
 		}
 	}
-	for round := 0; round < rounds; round++ {
-		rec := &recorder{clk: clk, seqs: map[int64]*[]entry{}, net: "-", tag: "-"}
-		shared := &recSched{Schedule: buildProfile(m["prof"]), rec: rec}
-		ctx, cancel := context.WithCancel(context.Background())
-		var ready, first atomic.Int32
-		var release atomic.Bool
-		var wg sync.WaitGroup
-		for i := 0; i < inst; i++ {
-			wg.Add(1)
-			go func() {
-				defer wg.Done()
-				w := coreutil.NewWaiter(shared)
-				ready.Add(1)
-				for spins := 0; !release.Load(); spins++ {
-					if spins > 2000 {
+	// `inst` goroutines live for the whole case (no goroutine is created inside a round: a round takes microseconds); each waits for
+	// the next round to be published, then - the j-th one j * (round mod 97) loop iterations (a few ns each) after the first, so that over
+	// the rounds the distances between the arrivals sweep 0 .. a few hundred ns and every short window inside the first Next is
+	// visited - makes a new Waiter over the round's shared schedule and its passes
+	var cur atomic.Pointer[raceRound]
+	var gen, doneCnt atomic.Int64
+	var stop atomic.Bool
+	var wg sync.WaitGroup
+	for i := 0; i < inst; i++ {
+		wg.Add(1)
+		go func(i int) {
+			defer wg.Done()
+			seen := int64(0)
+			for {
+				for spins := 0; gen.Load() == seen; spins++ {
+					if stop.Load() {
+						return
+					}
+					if spins > 300 {
 						runtime.Gosched()
 					}
 				}
+				seen++
+				rr := cur.Load()
+				for x := 0; x < i*rr.lagMul; x++ {
+					_ = gen.Load()
+				}
+				w := coreutil.NewWaiter(rr.shared)
 				for k := 0; k < per; k++ {
-					ok := w.Wait(ctx)
-					if k == 0 {
-						first.Add(1)
-					}
-					if !ok {
+					if !w.Wait(rr.ctx) {
 						continue
 					}
-					if w.IsSlowDown(ctx) {
-						rec.decided('D')
+					if w.IsSlowDown(rr.ctx) {
+						rr.rec.decided('D')
 					} else {
-						rec.decided('F')
+						rr.rec.decided('F')
 					}
 				}
-			}()
+				doneCnt.Add(1)
+			}
+		}(i)
+	}
+	done := 0
+	for round := 0; round < rounds; round++ {
+		if budget > 0 && clk.Now() > int64(budget)*1_000_000 {
+			break
 		}
-		for ready.Load() < int32(inst) {
-			runtime.Gosched()
-		}
+		done++
+		rec := &recorder{clk: clk, seqs: map[int64]*[]entry{}, net: "-", tag: "-"}
+		shared := &recSched{Schedule: buildProfile(m["prof"]), rec: rec}
+		ctx, cancel := context.WithCancel(context.Background())
+		cur.Store(&raceRound{rec: rec, shared: shared, ctx: ctx, lagMul: round % 97})
+		doneCnt.Store(0)
 		rs := clk.Now()
-		release.Store(true)
-		go func() {
-			for first.Load() < int32(inst) && ctx.Err() == nil {
-				// a goroutine is inside its first Wait as soon as it has its token; `first` counts returned Waits, so also poll the schedule
-				if shared.Left() <= total-inst {
-					break
-				}
+		gen.Add(1)
+		// once every goroutine has its first token the round is cancelled: tokens that lie in the future are not waited for
+		floor := total - inst
+		if floor < 0 {
+			floor = 0
+		}
+		cancelled := false
+		for spins := 0; doneCnt.Load() < int64(inst); spins++ {
+			if !cancelled && shared.Schedule.Left() <= floor {
+				cancel()
+				cancelled = true
+			}
+			if spins > 300 {
 				runtime.Gosched()
 			}
-			time.Sleep(50 * time.Microsecond)
-			cancel()
-		}()
-		wg.Wait()
+		}
 		cancel()
 		strange := false
 		rec.mu.Lock()
@@ -599,7 +626,9 @@ func runRace(m map[string]string) string {
 			kept = append(kept, fmt.Sprintf("%d/%s", rs, rec.render()))
 		}
 	}
-	return fmt.Sprintf("rounds=%d odd=%d total=%d seq=%s", rounds, odd, total, strings.Join(kept, ";"))
+	stop.Store(true)
+	wg.Wait()
+	return fmt.Sprintf("rounds=%d odd=%d total=%d seq=%s", done, odd, total, strings.Join(kept, ";"))
 }
 
 func run(input string) string {
@@ -930,7 +959,7 @@ func genRace(r *rand.Rand, rounds int) string {
 		fmt.Sprintf("step:1:%d:1:20000", 2+r.Intn(3)),
 		"const:0.5:100000",
 	}[r.Intn(5)]
-	return fmt.Sprintf("mode=race inst=%d rounds=%d per=%d prof=%s", []int{2, 3, 4, 8, 16}[r.Intn(5)], rounds, 1+r.Intn(2), prof)
+	return fmt.Sprintf("mode=race inst=%d rounds=%d ms=1500 per=%d prof=%s", []int{2, 3, 4, 8, 16}[r.Intn(5)], rounds, 1+r.Intn(2), prof)
 }
 
 var respPool = []int64{0, 0, 50, 300, 700, 1000, 1500, 2100, 3000, 4000}
@@ -1069,14 +1098,16 @@ func gen(r *rand.Rand, tier string) []string {
 		// tokens placed ns .. ms ahead of the instant they are asked for
 		"mode=waiter rel=30000,5000,45000,100000,-20000,900000,20000,49000,1000,70000,300,12000,48000,2500000 sleeps=0,0,0,1,0,0,0,0,0,0,0,2,0,0",
 		// the instances of a pool take their first tokens from a fresh (lazily started) shared profile at the same moment
-		"mode=race inst=4 rounds=1500 per=1 prof=const:1:100000",
-		"mode=race inst=8 rounds=1000 per=2 prof=line:1:5:60000",
-		"mode=race inst=3 rounds=1500 per=2 prof=once:2+const:2:60000",
+		// (a time budget per case: under a load average of 200 a round takes milliseconds instead of microseconds)
+		"mode=race inst=4 rounds=60000 ms=3000 per=1 prof=const:1:100000",
+		"mode=race inst=16 rounds=60000 ms=3000 per=1 prof=const:2:100000",
+		"mode=race inst=8 rounds=60000 ms=2000 per=1 prof=line:1:5:60000",
+		"mode=race inst=3 rounds=60000 ms=1500 per=2 prof=once:2+const:2:60000",
 	)
 	out = append(out, quick...)
-	nrel, nrace, raceRounds := 6, 2, 800
+	nrel, nrace, raceRounds := 6, 1, 30000
 	if thorough {
-		nrel, nrace, raceRounds = 150, 40, 1500
+		nrel, nrace, raceRounds = 150, 16, 30000
 	}
 	for i := 0; i < nrel; i++ {
 		out = append(out, genWaiterRel(r))
@@ -1218,6 +1249,12 @@ func class(in, obs string) string {
 		}
 		if m["startup"] != "" {
 			c += "/late-starters"
+		}
+		if strings.Contains(m["prof"], "line:") {
+			c += "/line"
+		}
+		if strings.Contains(m["prof"], "+") || strings.Contains(m["prof"], "step:") {
+			c += "/composite"
 		}
 		if m["rot"] != "" && m["rot"] != "0" {
 			c += "/different-histories"
